@@ -21,15 +21,15 @@ def sh(cmd, cwd=None, env=None, timeout=3600):
 def verify(name, wt, prop):
     env = dict(os.environ, PYTHONPATH=f"{wt}/src")
     env.pop("NGO_VERIF", None)
-    rc, out = sh("git diff -- src > /tmp/_seed_patch.diff; git status --short", cwd=wt)
-    patch = open("/tmp/_seed_patch.diff").read()
+    rc, out = sh(f"git diff -- src > /tmp/_seed_patch_{name}.diff; git status --short", cwd=wt)
+    patch = open(f"/tmp/_seed_patch_{name}.diff").read()
     assert patch.strip(), "no change in worktree"
     rc_t, out_t = sh("/venv/bin/python -m pytest -q -p no:cacheprovider -x 2>&1 | tail -3", cwd=wt, env=env)
     tests_ok = " passed" in out_t and "failed" not in out_t
     rc_with, out_with = sh("/venv/bin/python demo.py", cwd=wt, env=env)
-    sh("git apply -R /tmp/_seed_patch.diff", cwd=wt)
+    sh(f"git apply -R /tmp/_seed_patch_{name}.diff", cwd=wt)
     rc_without, out_without = sh("/venv/bin/python demo.py", cwd=wt, env=env)
-    sh("git apply /tmp/_seed_patch.diff", cwd=wt)
+    sh(f"git apply /tmp/_seed_patch_{name}.diff", cwd=wt)
     ok = tests_ok and rc_with != 0 and rc_without == 0
     print(f"{name}: tests_ok={tests_ok} demo_with={rc_with} demo_without={rc_without} -> {'KEEP' if ok else 'REJECT'}")
     print(out_t.strip()[-200:])
@@ -38,7 +38,7 @@ def verify(name, wt, prop):
         return 1
     d = os.path.join(VERIF, "seeded", name)
     os.makedirs(d, exist_ok=True)
-    shutil.copy("/tmp/_seed_patch.diff", os.path.join(d, "patch.diff"))
+    shutil.copy(f"/tmp/_seed_patch_{name}.diff", os.path.join(d, "patch.diff"))
     shutil.copy(os.path.join(wt, "demo.py"), os.path.join(d, "demo.py"))
     meta = {"property": prop, "needs": "", "ran": {
         "tests_with_change": out_t.strip().splitlines()[-1] if out_t.strip() else "",
